@@ -88,10 +88,25 @@ pub fn child_run(rest: &[String]) -> ! {
     let root = &rest[0];
     let cfg = parse_cfg(&rest[1]);
     let ops: Vec<Op> = std::fs::read_to_string(&rest[2]).unwrap().split_whitespace().filter_map(parse_op).collect();
-    let mut marker = std::fs::OpenOptions::new().create(true).append(true).open(&rest[3]).unwrap();
-    let mut report = std::fs::File::create(&rest[4]).unwrap();
+    // markers and the report are written with pwrite64 so that a fault injected on `write` can
+    // never hit them
+    use std::os::unix::io::AsRawFd;
+    struct Raw { f: std::fs::File, off: i64 }
+    impl Raw {
+        fn put(&mut self, s: &str) {
+            let b = s.as_bytes();
+            let n = unsafe { libc::pwrite(self.f.as_raw_fd(), b.as_ptr() as *const libc::c_void, b.len(), self.off) };
+            if n > 0 { self.off += n as i64; }
+        }
+    }
+    impl std::io::Write for Raw {
+        fn write(&mut self, buf: &[u8]) -> std::io::Result<usize> { self.put(&String::from_utf8_lossy(buf)); Ok(buf.len()) }
+        fn flush(&mut self) -> std::io::Result<()> { Ok(()) }
+    }
+    let mut marker = Raw { f: std::fs::OpenOptions::new().create(true).write(true).open(&rest[3]).unwrap(), off: 0 };
+    let mut report = Raw { f: std::fs::File::create(&rest[4]).unwrap(), off: 0 };
     let mut mark = |s: String| {
-        marker.write_all(s.as_bytes()).unwrap();
+        marker.put(&s);
     };
     mark("MARK open\n".to_string());
     let mut sim = match Sim::open(root, &cfg) {
@@ -391,9 +406,17 @@ fn canonical(ops: &[FsOp]) -> Vec<String> {
 struct Traced {
     ops: Vec<FsOp>,
     report: String,
+    /// how many times each injectable system call was issued
+    counts: BTreeMap<String, usize>,
 }
 
+const INJECTABLE: &[(&str, &str)] = &[("write", "ENOSPC"), ("fdatasync", "EIO"), ("fsync", "EIO"), ("linkat", "EIO"), ("rename", "EIO"), ("unlink", "EIO"), ("unlinkat", "EIO"), ("mkdir", "EIO")];
+
 fn trace_history(work: &str, root: &str, cfg: &Cfg, ops: &[Op]) -> Result<Traced, String> {
+    trace_history_inject(work, root, cfg, ops, None)
+}
+
+fn trace_history_inject(work: &str, root: &str, cfg: &Cfg, ops: &[Op], inject: Option<(&str, &str, usize)>) -> Result<Traced, String> {
     let opsfile = format!("{}/ops.txt", work);
     std::fs::write(&opsfile, ops.iter().map(|o| o.render()).collect::<Vec<_>>().join(" ")).map_err(|e| e.to_string())?;
     let marker = format!("{}/marker", work);
@@ -401,8 +424,12 @@ fn trace_history(work: &str, root: &str, cfg: &Cfg, ops: &[Op]) -> Result<Traced
     let trace = format!("{}/trace", work);
     let _ = std::fs::remove_file(&marker);
     let exe = std::env::current_exe().map_err(|e| e.to_string())?;
-    let st = std::process::Command::new("strace")
-        .args(["-f", "-o", &trace, "-s", "4000000", "-xx", "-y", "-e", "trace=openat,open,creat,write,pwrite64,fsync,fdatasync,link,linkat,rename,renameat,renameat2,unlink,unlinkat,mkdir,mkdirat,rmdir"])
+    let mut cmd = std::process::Command::new("strace");
+    cmd.args(["-f", "-o", &trace, "-s", "4000000", "-xx", "-y", "-e", "trace=openat,open,creat,write,pwrite64,fsync,fdatasync,link,linkat,rename,renameat,renameat2,unlink,unlinkat,mkdir,mkdirat,rmdir"]);
+    if let Some((call, err, k)) = inject {
+        cmd.args(["-e", &format!("inject={}:error={}:when={}", call, err, k)]);
+    }
+    let st = cmd
         .arg(&exe)
         .args(["C02child", root, &cfg_arg(cfg), &opsfile, &marker, &report])
         .stdout(std::process::Stdio::null())
@@ -410,13 +437,18 @@ fn trace_history(work: &str, root: &str, cfg: &Cfg, ops: &[Op]) -> Result<Traced
         .status()
         .map_err(|e| format!("strace: {}", e))?;
     let rep = std::fs::read_to_string(&report).unwrap_or_default();
-    if !st.success() {
+    if !st.success() && inject.is_none() {
         return Err(format!("traced run exited with {:?}: {}", st.code(), rep.lines().last().unwrap_or("")));
     }
     let text = std::fs::read_to_string(&trace).map_err(|e| e.to_string())?;
     let ops = fstrace::parse(&text, root, &marker);
+    let mut counts = BTreeMap::new();
+    for (call, _) in INJECTABLE {
+        let pat = format!(" {}(", call);
+        counts.insert(call.to_string(), text.lines().filter(|l| l.contains(&pat)).count());
+    }
     let _ = std::fs::remove_file(&trace);
-    Ok(Traced { ops, report: rep })
+    Ok(Traced { ops, report: rep, counts })
 }
 
 pub fn run(args: &Args) {
@@ -566,6 +598,96 @@ pub fn run(args: &Args) {
                 let fp = fnv(format!("{}:{}:{}:{}", h, p, model_b, hsh).as_bytes());
                 rec.case(&format!("# {}", tag), "#", verdict, Some(fp));
             }
+        }
+        // ---- single injected faults (EIO / ENOSPC) at one of the history's system calls
+        let n_faults = if args.thorough { 40 } else { 6 };
+        let mut choices: Vec<(&str, &str, usize)> = vec![];
+        for (call, err) in INJECTABLE {
+            for k in 1..=*traced.counts.get(*call).unwrap_or(&0) {
+                choices.push((call, err, k));
+            }
+        }
+        rng.shuffle(&mut choices);
+        for (call, err, k) in choices.into_iter().take(n_faults) {
+            let froot = format!("{}/fstore", work);
+            let _ = std::fs::remove_dir_all(&froot);
+            let t = match trace_history_inject(&work, &froot, &cfg, &ops, Some((call, err, k))) {
+                Ok(t) => t,
+                Err(e) => {
+                    rec.case("# fault run", "#", Verdict::Fail { class: "machinery".into(), detail: e }, None);
+                    continue;
+                }
+            };
+            // which client operation was in progress when the fault hit, and what each op returned
+            let mut begun: Option<usize> = None;
+            let mut hit: Option<(Option<usize>, String, String)> = None;
+            let mut acked: Vec<usize> = vec![];
+            let mut errored: Vec<usize> = vec![];
+            for o in &t.ops {
+                match o {
+                    FsOp::Mark { text } => {
+                        if let Some(x) = text.strip_prefix("b ") {
+                            begun = x.parse().ok();
+                        } else if let Some(x) = text.strip_prefix("a ") {
+                            if let Ok(x) = x.parse::<usize>() {
+                                acked.push(x);
+                            }
+                            begun = None;
+                        } else if let Some(x) = text.strip_prefix("e ") {
+                            if let Ok(x) = x.parse::<usize>() {
+                                errored.push(x);
+                            }
+                            begun = None;
+                        }
+                    }
+                    FsOp::Fault { call, path } => {
+                        if hit.is_none() {
+                            hit = Some((begun, call.clone(), path.clone()));
+                        }
+                    }
+                    _ => {}
+                }
+            }
+            let Some((during, fcall, fpath)) = hit else {
+                rec.count("faults.not_reached(call issued outside the store root or after the run)");
+                continue;
+            };
+            let crashed = t.report.lines().any(|l| l.starts_with("open-error")) || (during.is_none() && acked.is_empty() && errored.is_empty());
+            let tag = format!("h{} fault {}={} #{} on {} during op {:?}", h, fcall, err, k, fpath, during);
+            let mut bad = vec![];
+            // (1) a fault on the log's write or sync during a client write must not be acknowledged
+            let on_log = fpath.starts_with("log.");
+            if let Some(j) = during {
+                let is_write = matches!(ops.get(j), Some(Op::Put(..)) | Some(Op::Del(..)) | Some(Op::Batch(..)));
+                if is_write && on_log && (fcall == "write" || fcall == "fdatasync" || fcall == "fsync") && acked.contains(&j) {
+                    bad.push(format!("operation {} ({}) returned success although {} on its log failed with {}", j, ops[j].render(), fcall, err));
+                }
+            }
+            // (2) reopen without faults: every acknowledged write present, the failed one all or nothing
+            let out = std::process::Command::new(&exe).args(["C02reopen", &froot, &cfg_arg(&cfg), &nkeys.to_string()]).output();
+            let (code, text, d9) = match out {
+                Ok(o) => (o.status.code(), String::from_utf8_lossy(&o.stdout).to_string(), String::from_utf8_lossy(&o.stderr).contains("D9TRIGGER")),
+                Err(e) => (None, format!("spawn: {}", e), false),
+            };
+            // the acknowledged operations are a prefix 0..n (the child stops at the first error)
+            let n = acked.len();
+            let want_a = expected_state(&ops, n, nkeys);
+            let want_b = if n < ops.len() { Some(expected_state(&ops, n + 1, nkeys)) } else { None };
+            if code != Some(0) {
+                bad.push(format!("reopen after the fault failed: exit {:?} {}", code, text.lines().last().unwrap_or("").chars().take(200).collect::<String>()));
+            } else if text != want_a && Some(&text) != want_b.as_ref() {
+                bad.push("after reopen the contents are neither the acknowledged operations nor those plus the failed one".to_string());
+            }
+            rec.count(&format!("faults.{}.{}", fcall, err));
+            if !errored.is_empty() || crashed {
+                rec.count("faults.surfaced_as_error");
+            } else {
+                rec.count("faults.absorbed_without_error(e.g. a failed unlink of a temporary)");
+            }
+            let class = if d9 { "reopen-with-key-and-timestamp-overlapping-files".to_string() } else { "io-error-acknowledged-or-state-damaged".to_string() };
+            let v = if bad.is_empty() { Verdict::Ok } else { Verdict::Fail { class, detail: format!("{} {}", tag, bad.join("; ")) } };
+            rec.case(&format!("# {}", tag), "#", v, Some(fnv(tag.as_bytes())));
+            let _ = std::fs::remove_dir_all(&froot);
         }
         rec.add("syscalls_mutating", mutating.len() as u64);
         rec.count("histories");
